@@ -36,6 +36,10 @@ def mon(w):
         q = peer_protocol(l, sd)
         if not (isinstance(q, transit.Connection) and q.owner is w.R):
             w.flag("key-holders-only", "sender-selected-stranger", "the sender confirmed a connection whose far end is %r" % type(q).__name__)
+    if w.S._winner is not None and w.called["S"] and w.results["S"] is None:
+        w.flag("same-link", "winner-not-returned", "the sender confirmed a connection (sent go) but its connect() has not returned it")
+    if w.S._winner is not None and w.results["S"] and w.results["S"][0] == "ok" and w.results["S"][1] is not w.S._winner:
+        w.flag("same-link", "returned-other-than-winner", "the sender's connect() returned a connection other than the one it confirmed")
     r_rec = [(l, sd, p) for (l, sd, p) in w.conns("R") if p.state == "records"]
     if len(r_rec) > 1:
         w.flag("one-winner", "receiver-two-records", "the receiver has %d connections in state records" % len(r_rec))
@@ -110,13 +114,15 @@ KINDS = ["junk", "http", "partial", "otherkey", "go-early", "silent", "prefix-th
 def scenarios(tier):
     q = tier == "quick"
     S = []
-    ch = "whole" if q else "lines"
+    ch = "lines"
     L = dict(lazy_timer=True)     # time passes only when the network is otherwise quiet
     S.append(mk("direct-r-listens", dict(r_listens=True, chunking="lines"), max_depth=80, max_states=500000))
-    S.append(mk("both-listen-race", dict(r_listens=True, s_listens=True, chunking=ch, conn_fail=not q, **L), max_depth=100, max_states=1500000))
+    S.append(mk("both-listen-race", dict(r_listens=True, s_listens=True, chunking=ch, conn_fail=True, **L), max_depth=100, max_states=1500000))
     S.append(mk("relay-only", dict(relay=True, chunking=ch, **L), max_depth=100, max_states=1500000))
     S.append(mk("direct-vs-relay-lazy", dict(r_listens=True, relay=True, chunking="whole", **L), max_depth=120, max_states=1500000))
     S.append(mk("direct-vs-relay-race-dev", dict(r_listens=True, relay=True, chunking="whole", conn_fail=False), dev_bound=3 if q else 4, max_depth=150))
+    S.append(mk("two-relays", dict(relay=True, relay2=True, chunking="whole", conn_fail=False, **L), max_depth=140, max_states=600000 if q else 3000000))
+    S.append(mk("two-relays-timers-dev", dict(relay=True, relay2=True, chunking="whole", conn_fail=False), dev_bound=3 if q else 4, max_depth=200))
     S.append(mk("no-honest-path", dict(r_listens=True, chunking="whole"), max_depth=60))   # conn_fail explored: S's only attempt may fail
     for kind in (KINDS if not q else ["junk", "partial", "otherkey", "go-early", "late-diverge", "reflect"]):
         S.append(mk("stranger-in-%s" % kind, dict(r_listens=True, strangers=[(kind, "R-listener")], chunking="whole", conn_fail=False, **L),
@@ -129,11 +135,12 @@ def scenarios(tier):
     S.append(mk("stranger-timers-dev", dict(r_listens=True, strangers=[("partial", "R-listener")], chunking="whole", conn_fail=False),
                 dev_bound=3 if q else 4, max_depth=150))
     S.append(mk("lose1-both-listen", dict(r_listens=True, s_listens=True, chunking="whole", conn_fail=False, lose=1), dev_bound=2 if q else 3, max_depth=150))
-    if not q:
+    if True:
         S.append(mk("two-strangers", dict(r_listens=True, strangers=[("otherkey", "R-listener"), ("partial", "hint-for-S")], chunking="whole",
                                           conn_fail=False, **L), max_depth=120, max_states=3000000))
         S.append(mk("all-three-paths", dict(r_listens=True, s_listens=True, relay=True, chunking="whole", conn_fail=False, **L), max_depth=150, max_states=3000000))
-        S.append(mk("both-listen-race-timers", dict(r_listens=True, s_listens=True, chunking="whole", conn_fail=False), max_depth=100, max_states=3000000))
+        S.append(mk("both-listen-race-timers", dict(r_listens=True, s_listens=True, chunking="whole", conn_fail=False), max_depth=100,
+                    max_states=200000 if q else 3000000))
     return S
 
 
